@@ -2,6 +2,7 @@ package interp
 
 import (
 	"bytes"
+	"strings"
 	"go/token"
 	_ "fmt"
 
@@ -172,6 +173,52 @@ func init() {
 		"(*sync.RWMutex).Unlock":  func(fr *frame, args []value) value { ex.lockOp(args[0].(*value), "Unlock"); return nil },
 		"(*sync.RWMutex).RLock":   func(fr *frame, args []value) value { ex.lockOp(args[0].(*value), "RLock"); return nil },
 		"(*sync.RWMutex).RUnlock": func(fr *frame, args []value) value { ex.lockOp(args[0].(*value), "RUnlock"); return nil },
+		"fmt.Errorf": func(fr *frame, args []value) value {
+			format := args[0].(string)
+			fargs := args[1].([]value)
+			msg := symFmt(format, fargs, fr)
+			// collect the operands of %w verbs (non-nil errors only)
+			var wrapped []iface
+			ai := 0
+			for i := 0; i < len(format); i++ {
+				if format[i] != '%' {
+					continue
+				}
+				i++
+				for i < len(format) && strings.IndexByte("0123456789.+-# ", format[i]) >= 0 {
+					i++
+				}
+				if i >= len(format) {
+					break
+				}
+				if format[i] == '%' {
+					continue
+				}
+				if format[i] == 'w' && ai < len(fargs) {
+					if e := fargs[ai].(iface); e.t != nil {
+						wrapped = append(wrapped, e)
+					}
+				}
+				ai++
+			}
+			fmtPkg := fr.i.prog.ImportedPackage("fmt")
+			switch len(wrapped) {
+			case 0:
+				ep := fr.i.prog.ImportedPackage("errors")
+				var cell value = structure{msg}
+				return iface{t: types.NewPointer(ep.Type("errorString").Type()), v: &cell}
+			case 1:
+				var cell value = structure{msg, wrapped[0]}
+				return iface{t: types.NewPointer(fmtPkg.Type("wrapError").Type()), v: &cell}
+			default:
+				errs := make([]value, len(wrapped))
+				for i, e := range wrapped {
+					errs[i] = e
+				}
+				var cell value = structure{msg, errs}
+				return iface{t: types.NewPointer(fmtPkg.Type("wrapErrors").Type()), v: &cell}
+			}
+		},
 		"fmt.Fprintf": func(fr *frame, args []value) value {
 			str := symFmt(args[1].(string), args[2].([]value), fr)
 			w := args[0].(iface)
